@@ -33,7 +33,8 @@ Inductive loc :=
 | LCnt (c : cid)                                                                      (* counter.count *)
 | LMCount (m : mid) | LMSum (m : mid)                                                 (* mean fields *)
 | LPaused | LWarcQ
-| LPresent (k : N).                        (* 1 iff rateBucket.data has key k *)
+| LPresent (k : N)                         (* 1 iff rateBucket.data has key k *)
+| LWg (c : cid).                           (* counter of the stage's sync.WaitGroup *)
 
 Definition rid_eqb (a b : rid) : bool :=
   match a, b with
@@ -58,6 +59,7 @@ Definition loc_eqb (a b : loc) : bool :=
   | LMCount x, LMCount y | LMSum x, LMSum y => mid_eqb x y
   | LPaused, LPaused | LWarcQ, LWarcQ => true
   | LPresent x, LPresent y => x =? y
+  | LWg x, LWg y => cid_eqb x y
   | _, _ => false
   end.
 
